@@ -202,6 +202,12 @@ func (g *graph) hydrateSourceCodeInfo(f File, fd *descriptor.FileDescriptorProto
 		info := sci{desc: loc}
 		path := loc.GetPath()
 
+		if len(path) == 0 {
+			// the location of the file as a whole designates no declaration; in
+			// particular it is not the location of the syntax statement
+			continue
+		}
+
 		if len(path) == 1 {
 			switch path[0] {
 			case syntaxPath:
